@@ -14,7 +14,8 @@ from ural.normalize_url import normalize_url
 from ural.fingerprint_url import fingerprint_url
 from ural.has_special_host import is_special_host
 
-PORT_SPLITTER = re.compile(r":(?![\d:]+])")
+# NOTE: a colon inside a bracketed ip literal (hex digits, dots, zone...) is not a port separator
+PORT_SPLITTER = re.compile(r":(?![^\[\]]*\])")
 
 
 def lru_stems_from_parsed_url(parsed_url, suffix_aware=True):
